@@ -81,7 +81,7 @@ pub struct SlateV4 {
 	/// as the transaction progresses
 	#[serde(
 		serialize_with = "secp_ser::as_hex",
-		deserialize_with = "secp_ser::blind_from_hex"
+		deserialize_with = "blind_from_hex"
 	)]
 	#[serde(default = "default_offset_zero")]
 	#[serde(skip_serializing_if = "offset_is_zero")]
@@ -133,6 +133,23 @@ pub struct SlateV4 {
 
 fn default_payment_none() -> Option<PaymentInfoV4> {
 	None
+}
+
+/// Offset from a hex string. `secp_ser::blind_from_hex` unwraps the hex
+/// decoding, here a malformed string is a deserialization error
+fn blind_from_hex<'de, D>(deserializer: D) -> Result<BlindingFactor, D::Error>
+where
+	D: serde::Deserializer<'de>,
+{
+	use serde::de::Error;
+	use serde::Deserialize;
+	let hex = String::deserialize(deserializer)?;
+	if !hex.is_ascii() {
+		return Err(Error::custom("offset is not a hex string"));
+	}
+	let bytes = crate::grin_util::from_hex(&hex)
+		.map_err(|_| Error::custom("offset is not a hex string"))?;
+	Ok(BlindingFactor::from_slice(&bytes))
 }
 
 fn default_offset_zero() -> BlindingFactor {
